@@ -3,6 +3,7 @@ package mon
 import (
 	"errors"
 	"fmt"
+	"reflect"
 	"strings"
 
 	stackage "github.com/JesseCoretta/go-stackage"
@@ -32,7 +33,8 @@ func c06KwArgs() []c06Arg {
 
 func c06OpArgs() []c06Arg {
 	return []c06Arg{{"Eq", stackage.Eq}, {"Ne", stackage.Ne}, {"Ge", stackage.Ge}, {"nil", nil}, {`UserOp{"~=","ctx"}`, UserOp{"~=", "ctx"}},
-		{`UserOp{"","ctx"}`, UserOp{"", "ctx"}}, {`UserOp{"x",""}`, UserOp{"x", ""}}, {"ComparisonOperator(0)", stackage.ComparisonOperator(0)}, {"ComparisonOperator(9)", stackage.ComparisonOperator(9)}}
+		{`UserOp{"","ctx"}`, UserOp{"", "ctx"}}, {`UserOp{"x",""}`, UserOp{"x", ""}}, {"ComparisonOperator(0)", stackage.ComparisonOperator(0)}, {"ComparisonOperator(9)", stackage.ComparisonOperator(9)},
+		{"(*ComparisonOperator)(nil)", (*stackage.ComparisonOperator)(nil)}}
 }
 
 func c06ExArgs() []c06Arg {
@@ -48,7 +50,13 @@ func isStackVal(v any) bool {
 }
 
 func opAcceptable(op stackage.Operator) bool {
-	return op != nil && op.String() != "" && op.Context() != ""
+	if op == nil {
+		return false
+	}
+	if v := reflect.ValueOf(op); v.Kind() == reflect.Ptr && v.IsNil() {
+		return false // a nil operator, merely typed
+	}
+	return op.String() != "" && op.Context() != ""
 }
 
 type c06Step struct {
